@@ -5,7 +5,7 @@
 * `table`: per type the frozen layout — field names as written (incl. `ge_proofs`, the camelCase
   names of `RevocationRegistryDelta`), kinds of the leaves, skip-if-empty/None rules, defaults on
   input, transparent newtypes (`Accumulator`, `Tail`), the legacy field of the two hand-written
-  `Deserialize` impls; `recorded` is the flat rendering recorded from the source tree by
+  `Deserialize` impls; `recorded` is the flat rendering (token lists) recorded from the source tree by
   `tools/record_wire.py` (`wire_tables_frozen : flat table = recorded`);
 * the two legacy conversions (`rms → r["master_secret"]`, `m1 → m["master_secret"]`, skipped when
   the legacy field is zero) as functions on `J`, generic in the field names (`LegacySpec`);
@@ -213,142 +213,142 @@ def table : List (String × Layout) :=
   ]
 
 /-- the flat table recorded from the source tree by `tools/record_wire.py` -/
-def recorded : List String :=
-  ["CredentialSchema.attrs:setStr",
-   "CredentialSchemaBuilder.attrs:setStr",
-   "NonCredentialSchema.attrs:setStr",
-   "NonCredentialSchemaBuilder.attrs:setStr",
-   "CredentialValue.Known.value:bn",
-   "CredentialValue.Hidden.value:bn",
-   "CredentialValue.Commitment.value:bn",
-   "CredentialValue.Commitment.blinding_factor:bn",
-   "CredentialValues.attrs_values:mapStr(ref(CredentialValue))",
-   "CredentialValuesBuilder.attrs_values:mapStr(ref(CredentialValue))",
-   "CredentialPublicKey.p_key:ref(CredentialPrimaryPublicKey)",
-   "CredentialPublicKey.r_key:opt(ref(CredentialRevocationPublicKey))",
-   "CredentialPrivateKey.p_key:ref(CredentialPrimaryPrivateKey)",
-   "CredentialPrivateKey.r_key:opt(ref(CredentialRevocationPrivateKey))",
-   "CredentialPrimaryPublicKey.n:bn",
-   "CredentialPrimaryPublicKey.s:bn",
-   "CredentialPrimaryPublicKey.r:mapStr(bn)",
-   "CredentialPrimaryPublicKey.rctxt:bn",
-   "CredentialPrimaryPublicKey.z:bn",
-   "CredentialPrimaryPrivateKey.p:bn",
-   "CredentialPrimaryPrivateKey.q:bn",
-   "CredentialKeyCorrectnessProof.c:bn",
-   "CredentialKeyCorrectnessProof.xz_cap:bn",
-   "CredentialKeyCorrectnessProof.xr_cap:vec(pairStrBn)",
-   "CredentialRevocationPublicKey.g:g1",
-   "CredentialRevocationPublicKey.g_dash:g2",
-   "CredentialRevocationPublicKey.h:g1",
-   "CredentialRevocationPublicKey.h0:g1",
-   "CredentialRevocationPublicKey.h1:g1",
-   "CredentialRevocationPublicKey.h2:g1",
-   "CredentialRevocationPublicKey.htilde:g1",
-   "CredentialRevocationPublicKey.h_cap:g2",
-   "CredentialRevocationPublicKey.u:g2",
-   "CredentialRevocationPublicKey.pk:g1",
-   "CredentialRevocationPublicKey.y:g2",
-   "CredentialRevocationPrivateKey.x:sc",
-   "CredentialRevocationPrivateKey.sk:sc",
-   "Accumulator:transparent:g2inf",
-   "RevocationRegistry.accum:ref(Accumulator)",
-   "RevocationRegistryDelta.prevAccum:opt(ref(Accumulator)):skipIfNone:default",
-   "RevocationRegistryDelta.accum:ref(Accumulator)",
-   "RevocationRegistryDelta.issued:setU32:skipIfEmpty:default",
-   "RevocationRegistryDelta.revoked:setU32:skipIfEmpty:default",
-   "RevocationKeyPublic.z:pair",
-   "RevocationKeyPrivate.gamma:sc",
-   "Tail:transparent:g2",
-   "RevocationTailsGenerator.size:u32",
-   "RevocationTailsGenerator.current_index:u32",
-   "RevocationTailsGenerator.g_dash:g2",
-   "RevocationTailsGenerator.gamma:sc",
-   "RevocationTailsGenerator.cur:opt(g2)",
-   "CredentialSignature.p_credential:ref(PrimaryCredentialSignature)",
-   "CredentialSignature.r_credential:opt(ref(NonRevocationCredentialSignature))",
-   "PrimaryCredentialSignature.m_2:bn",
-   "PrimaryCredentialSignature.a:bn",
-   "PrimaryCredentialSignature.e:bn",
-   "PrimaryCredentialSignature.v:bn",
-   "NonRevocationCredentialSignature.sigma:g1",
-   "NonRevocationCredentialSignature.c:sc",
-   "NonRevocationCredentialSignature.vr_prime_prime:sc",
-   "NonRevocationCredentialSignature.witness_signature:ref(WitnessSignature)",
-   "NonRevocationCredentialSignature.g_i:g1",
-   "NonRevocationCredentialSignature.i:u32",
-   "NonRevocationCredentialSignature.m2:sc",
-   "SignatureCorrectnessProof.se:bn",
-   "SignatureCorrectnessProof.c:bn",
-   "Witness.omega:g2inf",
-   "WitnessSignature.sigma_i:g2",
-   "WitnessSignature.u_i:g2",
-   "WitnessSignature.g_i:g1",
-   "LinkSecret.ms:bn",
-   "BlindedCredentialSecrets.u:bn",
-   "BlindedCredentialSecrets.ur:opt(g1)",
-   "BlindedCredentialSecrets.hidden_attributes:setStr",
-   "BlindedCredentialSecrets.committed_attributes:mapStr(bn)",
-   "CredentialSecretsBlindingFactors.v_prime:bn",
-   "CredentialSecretsBlindingFactors.vr_prime:opt(sc)",
-   "BlindedCredentialSecretsCorrectnessProof.c:bn",
-   "BlindedCredentialSecretsCorrectnessProof.v_dash_cap:bn",
-   "BlindedCredentialSecretsCorrectnessProof.m_caps:mapStr(bn)",
-   "BlindedCredentialSecretsCorrectnessProof.r_caps:mapStr(bn)",
-   "SubProofRequest.revealed_attrs:setStr:deonly",
-   "SubProofRequest.predicates:vec(ref(Predicate)):deonly",
-   "Predicate.attr_name:str",
-   "Predicate.p_type:ref(PredicateType)",
-   "Predicate.value:i32",
-   "PredicateType.GE:unit",
-   "PredicateType.LE:unit",
-   "PredicateType.GT:unit",
-   "PredicateType.LT:unit",
-   "Proof.proofs:vec(ref(SubProof))",
-   "Proof.aggregated_proof:ref(AggregatedProof)",
-   "SubProof.primary_proof:ref(PrimaryProof)",
-   "SubProof.non_revoc_proof:opt(ref(NonRevocProof))",
-   "AggregatedProof.c_hash:bn",
-   "AggregatedProof.c_list:vec(u8vec)",
-   "PrimaryProof.eq_proof:ref(PrimaryEqualProof)",
-   "PrimaryProof.ge_proofs:vec(ref(PrimaryPredicateInequalityProof))",
-   "PrimaryEqualProof.revealed_attrs:mapStr(bn)",
-   "PrimaryEqualProof.a_prime:bn",
-   "PrimaryEqualProof.e:bn",
-   "PrimaryEqualProof.v:bn",
-   "PrimaryEqualProof.m:mapStr(bn)",
-   "PrimaryEqualProof.m2:bn",
-   "PrimaryPredicateInequalityProof.u:mapStr(bn)",
-   "PrimaryPredicateInequalityProof.r:mapStr(bn)",
-   "PrimaryPredicateInequalityProof.mj:bn",
-   "PrimaryPredicateInequalityProof.alpha:bn",
-   "PrimaryPredicateInequalityProof.t:mapStr(bn)",
-   "PrimaryPredicateInequalityProof.predicate:ref(Predicate)",
-   "NonRevocProof.x_list:ref(NonRevocProofXList)",
-   "NonRevocProof.c_list:ref(NonRevocProofCList)",
-   "NonRevocProofXList.rho:sc",
-   "NonRevocProofXList.r:sc",
-   "NonRevocProofXList.r_prime:sc",
-   "NonRevocProofXList.r_prime_prime:sc",
-   "NonRevocProofXList.r_prime_prime_prime:sc",
-   "NonRevocProofXList.o:sc",
-   "NonRevocProofXList.o_prime:sc",
-   "NonRevocProofXList.m:sc",
-   "NonRevocProofXList.m_prime:sc",
-   "NonRevocProofXList.t:sc",
-   "NonRevocProofXList.t_prime:sc",
-   "NonRevocProofXList.m2:opt(sc):skipIfNone",
-   "NonRevocProofXList.s:sc",
-   "NonRevocProofXList.c:sc",
-   "NonRevocProofCList.e:g1",
-   "NonRevocProofCList.d:g1",
-   "NonRevocProofCList.a:g1",
-   "NonRevocProofCList.g:g1",
-   "NonRevocProofCList.w:g2",
-   "NonRevocProofCList.s:g2",
-   "NonRevocProofCList.u:g2",
-   "CredentialPrimaryPublicKey.rms:legacy(master_secret)",
-   "PrimaryEqualProof.m1:legacy(master_secret)"]
+def recorded : List (List String) :=
+  [["CredentialSchema", "attrs", "setStr"],
+   ["CredentialSchemaBuilder", "attrs", "setStr"],
+   ["NonCredentialSchema", "attrs", "setStr"],
+   ["NonCredentialSchemaBuilder", "attrs", "setStr"],
+   ["CredentialValue", "Known", "value", "bn"],
+   ["CredentialValue", "Hidden", "value", "bn"],
+   ["CredentialValue", "Commitment", "value", "bn"],
+   ["CredentialValue", "Commitment", "blinding_factor", "bn"],
+   ["CredentialValues", "attrs_values", "mapStr", "ref", "CredentialValue"],
+   ["CredentialValuesBuilder", "attrs_values", "mapStr", "ref", "CredentialValue"],
+   ["CredentialPublicKey", "p_key", "ref", "CredentialPrimaryPublicKey"],
+   ["CredentialPublicKey", "r_key", "opt", "ref", "CredentialRevocationPublicKey"],
+   ["CredentialPrivateKey", "p_key", "ref", "CredentialPrimaryPrivateKey"],
+   ["CredentialPrivateKey", "r_key", "opt", "ref", "CredentialRevocationPrivateKey"],
+   ["CredentialPrimaryPublicKey", "n", "bn"],
+   ["CredentialPrimaryPublicKey", "s", "bn"],
+   ["CredentialPrimaryPublicKey", "r", "mapStr", "bn"],
+   ["CredentialPrimaryPublicKey", "rctxt", "bn"],
+   ["CredentialPrimaryPublicKey", "z", "bn"],
+   ["CredentialPrimaryPrivateKey", "p", "bn"],
+   ["CredentialPrimaryPrivateKey", "q", "bn"],
+   ["CredentialKeyCorrectnessProof", "c", "bn"],
+   ["CredentialKeyCorrectnessProof", "xz_cap", "bn"],
+   ["CredentialKeyCorrectnessProof", "xr_cap", "vec", "pairStrBn"],
+   ["CredentialRevocationPublicKey", "g", "g1"],
+   ["CredentialRevocationPublicKey", "g_dash", "g2"],
+   ["CredentialRevocationPublicKey", "h", "g1"],
+   ["CredentialRevocationPublicKey", "h0", "g1"],
+   ["CredentialRevocationPublicKey", "h1", "g1"],
+   ["CredentialRevocationPublicKey", "h2", "g1"],
+   ["CredentialRevocationPublicKey", "htilde", "g1"],
+   ["CredentialRevocationPublicKey", "h_cap", "g2"],
+   ["CredentialRevocationPublicKey", "u", "g2"],
+   ["CredentialRevocationPublicKey", "pk", "g1"],
+   ["CredentialRevocationPublicKey", "y", "g2"],
+   ["CredentialRevocationPrivateKey", "x", "sc"],
+   ["CredentialRevocationPrivateKey", "sk", "sc"],
+   ["Accumulator", "transparent", "g2inf"],
+   ["RevocationRegistry", "accum", "ref", "Accumulator"],
+   ["RevocationRegistryDelta", "prevAccum", "opt", "ref", "Accumulator", "skipIfNone", "default"],
+   ["RevocationRegistryDelta", "accum", "ref", "Accumulator"],
+   ["RevocationRegistryDelta", "issued", "setU32", "skipIfEmpty", "default"],
+   ["RevocationRegistryDelta", "revoked", "setU32", "skipIfEmpty", "default"],
+   ["RevocationKeyPublic", "z", "pair"],
+   ["RevocationKeyPrivate", "gamma", "sc"],
+   ["Tail", "transparent", "g2"],
+   ["RevocationTailsGenerator", "size", "u32"],
+   ["RevocationTailsGenerator", "current_index", "u32"],
+   ["RevocationTailsGenerator", "g_dash", "g2"],
+   ["RevocationTailsGenerator", "gamma", "sc"],
+   ["RevocationTailsGenerator", "cur", "opt", "g2"],
+   ["CredentialSignature", "p_credential", "ref", "PrimaryCredentialSignature"],
+   ["CredentialSignature", "r_credential", "opt", "ref", "NonRevocationCredentialSignature"],
+   ["PrimaryCredentialSignature", "m_2", "bn"],
+   ["PrimaryCredentialSignature", "a", "bn"],
+   ["PrimaryCredentialSignature", "e", "bn"],
+   ["PrimaryCredentialSignature", "v", "bn"],
+   ["NonRevocationCredentialSignature", "sigma", "g1"],
+   ["NonRevocationCredentialSignature", "c", "sc"],
+   ["NonRevocationCredentialSignature", "vr_prime_prime", "sc"],
+   ["NonRevocationCredentialSignature", "witness_signature", "ref", "WitnessSignature"],
+   ["NonRevocationCredentialSignature", "g_i", "g1"],
+   ["NonRevocationCredentialSignature", "i", "u32"],
+   ["NonRevocationCredentialSignature", "m2", "sc"],
+   ["SignatureCorrectnessProof", "se", "bn"],
+   ["SignatureCorrectnessProof", "c", "bn"],
+   ["Witness", "omega", "g2inf"],
+   ["WitnessSignature", "sigma_i", "g2"],
+   ["WitnessSignature", "u_i", "g2"],
+   ["WitnessSignature", "g_i", "g1"],
+   ["LinkSecret", "ms", "bn"],
+   ["BlindedCredentialSecrets", "u", "bn"],
+   ["BlindedCredentialSecrets", "ur", "opt", "g1"],
+   ["BlindedCredentialSecrets", "hidden_attributes", "setStr"],
+   ["BlindedCredentialSecrets", "committed_attributes", "mapStr", "bn"],
+   ["CredentialSecretsBlindingFactors", "v_prime", "bn"],
+   ["CredentialSecretsBlindingFactors", "vr_prime", "opt", "sc"],
+   ["BlindedCredentialSecretsCorrectnessProof", "c", "bn"],
+   ["BlindedCredentialSecretsCorrectnessProof", "v_dash_cap", "bn"],
+   ["BlindedCredentialSecretsCorrectnessProof", "m_caps", "mapStr", "bn"],
+   ["BlindedCredentialSecretsCorrectnessProof", "r_caps", "mapStr", "bn"],
+   ["SubProofRequest", "revealed_attrs", "setStr", "deonly"],
+   ["SubProofRequest", "predicates", "vec", "ref", "Predicate", "deonly"],
+   ["Predicate", "attr_name", "str"],
+   ["Predicate", "p_type", "ref", "PredicateType"],
+   ["Predicate", "value", "i32"],
+   ["PredicateType", "GE", "unit"],
+   ["PredicateType", "LE", "unit"],
+   ["PredicateType", "GT", "unit"],
+   ["PredicateType", "LT", "unit"],
+   ["Proof", "proofs", "vec", "ref", "SubProof"],
+   ["Proof", "aggregated_proof", "ref", "AggregatedProof"],
+   ["SubProof", "primary_proof", "ref", "PrimaryProof"],
+   ["SubProof", "non_revoc_proof", "opt", "ref", "NonRevocProof"],
+   ["AggregatedProof", "c_hash", "bn"],
+   ["AggregatedProof", "c_list", "vec", "u8vec"],
+   ["PrimaryProof", "eq_proof", "ref", "PrimaryEqualProof"],
+   ["PrimaryProof", "ge_proofs", "vec", "ref", "PrimaryPredicateInequalityProof"],
+   ["PrimaryEqualProof", "revealed_attrs", "mapStr", "bn"],
+   ["PrimaryEqualProof", "a_prime", "bn"],
+   ["PrimaryEqualProof", "e", "bn"],
+   ["PrimaryEqualProof", "v", "bn"],
+   ["PrimaryEqualProof", "m", "mapStr", "bn"],
+   ["PrimaryEqualProof", "m2", "bn"],
+   ["PrimaryPredicateInequalityProof", "u", "mapStr", "bn"],
+   ["PrimaryPredicateInequalityProof", "r", "mapStr", "bn"],
+   ["PrimaryPredicateInequalityProof", "mj", "bn"],
+   ["PrimaryPredicateInequalityProof", "alpha", "bn"],
+   ["PrimaryPredicateInequalityProof", "t", "mapStr", "bn"],
+   ["PrimaryPredicateInequalityProof", "predicate", "ref", "Predicate"],
+   ["NonRevocProof", "x_list", "ref", "NonRevocProofXList"],
+   ["NonRevocProof", "c_list", "ref", "NonRevocProofCList"],
+   ["NonRevocProofXList", "rho", "sc"],
+   ["NonRevocProofXList", "r", "sc"],
+   ["NonRevocProofXList", "r_prime", "sc"],
+   ["NonRevocProofXList", "r_prime_prime", "sc"],
+   ["NonRevocProofXList", "r_prime_prime_prime", "sc"],
+   ["NonRevocProofXList", "o", "sc"],
+   ["NonRevocProofXList", "o_prime", "sc"],
+   ["NonRevocProofXList", "m", "sc"],
+   ["NonRevocProofXList", "m_prime", "sc"],
+   ["NonRevocProofXList", "t", "sc"],
+   ["NonRevocProofXList", "t_prime", "sc"],
+   ["NonRevocProofXList", "m2", "opt", "sc", "skipIfNone"],
+   ["NonRevocProofXList", "s", "sc"],
+   ["NonRevocProofXList", "c", "sc"],
+   ["NonRevocProofCList", "e", "g1"],
+   ["NonRevocProofCList", "d", "g1"],
+   ["NonRevocProofCList", "a", "g1"],
+   ["NonRevocProofCList", "g", "g1"],
+   ["NonRevocProofCList", "w", "g2"],
+   ["NonRevocProofCList", "s", "g2"],
+   ["NonRevocProofCList", "u", "g2"],
+   ["CredentialPrimaryPublicKey", "rms", "legacy", "master_secret"],
+   ["PrimaryEqualProof", "m1", "legacy", "master_secret"]]
 
 /-- the primitives, as types of their own (feature `verif` re-exports the wrappers) -/
 def primTable : List (String × Layout) :=
@@ -363,34 +363,35 @@ def lookupLayout (ty : String) : Option Layout :=
 
 /-! ### flat rendering (what `tools/record_wire.py` prints) -/
 
-def Kind.render : Kind → String
-  | .bn => "bn" | .sc => "sc" | .g1 => "g1" | .g2 => "g2" | .g2inf => "g2inf" | .pair => "pair"
-  | .u32 => "u32" | .i32 => "i32" | .str => "str" | .u8vec => "u8vec" | .setStr => "setStr"
-  | .setU32 => "setU32" | .pairStrBn => "pairStrBn"
-  | .ref t => "ref(" ++ t ++ ")"
-  | .opt k => "opt(" ++ k.render ++ ")"
-  | .vec k => "vec(" ++ k.render ++ ")"
-  | .mapStr k => "mapStr(" ++ k.render ++ ")"
+def Kind.render : Kind → List String
+  | .bn => ["bn"] | .sc => ["sc"] | .g1 => ["g1"] | .g2 => ["g2"] | .g2inf => ["g2inf"] | .pair => ["pair"]
+  | .u32 => ["u32"] | .i32 => ["i32"] | .str => ["str"] | .u8vec => ["u8vec"] | .setStr => ["setStr"]
+  | .setU32 => ["setU32"] | .pairStrBn => ["pairStrBn"]
+  | .ref t => ["ref", t]
+  | .opt k => "opt" :: k.render
+  | .vec k => "vec" :: k.render
+  | .mapStr k => "mapStr" :: k.render
 
-def Field.render (pre : String) (deOnly : Bool) (f : Field) : String :=
-  pre ++ "." ++ f.name ++ ":" ++ f.kind.render ++
-    (match f.skip with | .never => "" | .ifNone => ":skipIfNone" | .ifEmpty => ":skipIfEmpty") ++
-    (if f.dflt then ":default" else "") ++ (if deOnly then ":deonly" else "")
+def Field.render (pre : List String) (deOnly : Bool) (f : Field) : List String :=
+  pre ++ [f.name] ++ f.kind.render ++
+    (match f.skip with | .never => [] | .ifNone => ["skipIfNone"] | .ifEmpty => ["skipIfEmpty"]) ++
+    (if f.dflt then ["default"] else []) ++ (if deOnly then ["deonly"] else [])
 
-def renderEntry (e : String × Layout) : List String :=
+def renderEntry (e : String × Layout) : List (List String) :=
   match e.2 with
-  | .struct fs _ deOnly => fs.map (Field.render e.1 deOnly)
-  | .transparent k => [e.1 ++ ":transparent:" ++ k.render]
-  | .unitEnum vs => vs.map fun v => e.1 ++ "." ++ v ++ ":unit"
-  | .structEnum vs => (vs.map fun v => v.2.map (Field.render (e.1 ++ "." ++ v.1) false)).flatten
+  | .struct fs _ deOnly => fs.map (Field.render [e.1] deOnly)
+  | .transparent k => [[e.1, "transparent"] ++ k.render]
+  | .unitEnum vs => vs.map fun v => [e.1, v, "unit"]
+  | .structEnum vs => (vs.map fun v => v.2.map (Field.render [e.1, v.1] false)).flatten
 
-def renderLegacy (e : String × Layout) : List String :=
+def renderLegacy (e : String × Layout) : List (List String) :=
   match e.2 with
-  | .struct _ (some l) _ => [e.1 ++ "." ++ l ++ ":legacy(master_secret)"]
+  | .struct _ (some l) _ => [[e.1, l, "legacy", "master_secret"]]
   | _ => []
 
-/-- fields first (declaration order), then the legacy fields -/
-def flat (t : List (String × Layout)) : List String :=
+/-- fields first (declaration order), then the legacy fields; every entry is the token list of
+the line `Type.field:kind(…):flags` printed by the recorder -/
+def flat (t : List (String × Layout)) : List (List String) :=
   (t.map renderEntry).flatten ++ (t.map renderLegacy).flatten
 
 /-! ## legacy layouts (`CredentialPrimaryPublicKey` with `rms`, `PrimaryEqualProof` with `m1`) -/
